@@ -419,6 +419,7 @@ fn gen_c13(out: &mut Out, rng: &mut Rng, thorough: bool) {
     // expressions as conditions: the rows a filter or a join keeps are those on which the
     // expression is true (not zero, not null, not the empty string) - select trees as in C12
     gen_c12_sessions(out, rng, if thorough { 20 } else { 2 }, if thorough { 600 } else { 250 });
+    gen_foreign_key_selects(out, if thorough { 12 } else { 3 });
     // depth 1, exhaustive: every operator on every (pair of) leaf
     for op in UNOPS {
         for a in &leaves {
@@ -1952,6 +1953,8 @@ fn gen_c20(out: &mut Out, rng: &mut Rng, thorough: bool) {
     }
     out.req("catalog_hand_limit", "@catalog_hand_limit _Validation 2".into());
     out.req("catalog_hand_limit", "@catalog_hand_limit _Columns 1".into());
+    // two full tables (65,536 rows each) holding one text: 131,072 references to it
+    out.req("two_full_tables", "@two_full_tables".into());
     // names: table names around 31/32/33 and 60/61 characters; stream names around the limit
     out.req("new", "new 0".into());
     for len in [30usize, 31, 32, 33, 59, 60, 61, 62, 63] {
@@ -2645,7 +2648,41 @@ fn shuffled(rng: &mut Rng, n: usize) -> Vec<usize> {
     v
 }
 
+/// databases of another writer whose rows are not in key order (integer keys descending, text
+/// keys in the order of their pool numbers): a condition on the key is true of the rows it is
+/// true of, wherever they lie
+fn gen_foreign_key_selects(out: &mut Out, n: usize) {
+    use crate::decode::*;
+    for case in 0..n {
+        let mut k = ColDef::new("Key", CT::I16);
+        k.key = true;
+        let mut v = ColDef::new("Val", CT::I32);
+        v.nullable = true;
+        let numbered = EncTable { name: "Numbered".into(), cols: vec![k, v], rows: (1..=5).map(|i| vec![V::Int(i * (case as i32 + 1)), V::Int(i * 10)]).collect() };
+        let mut nk = ColDef::new("Name", CT::Str(16));
+        nk.key = true;
+        let named = EncTable { name: "Named".into(), cols: vec![nk], rows: ["pear", "apple", "zebra", "mango"].iter().map(|s| vec![V::Str(s.to_string())]).collect() };
+        let layout = EncLayout { long_refs: case % 2 == 1, cp_id: 65001, filler: vec![], overcount: 0, duplicate: false, with_validation: case % 3 != 0, reverse_rows: true, int16_size: 2 };
+        let mut entries = encode_db(&layout, &[numbered.clone(), named.clone()]);
+        let props: Vec<(u32, PVal)> = vec![(1, PVal::I2(65001u16 as i16)), (2, PVal::Str(b"Installation Database".to_vec()))];
+        let pl = PropLayout { version: 0, os: 2, os_version: 10, section_gap: 0, table_order: vec![0, 1], value_order: vec![0, 1], gaps: vec![0, 0] };
+        entries.push(("\u{5}SummaryInformation".to_string(), write_propset(&props, &pl)));
+        out.req("load", format!("load 0 {}", entries_tok(&entries)));
+        out.req("snapshot", "snapshot".into());
+        for tb in [&numbered, &named] {
+            for row in tb.rows.iter() {
+                for flip in [false, true] {
+                    let (a, b) = (E::Col(tb.cols[0].name.clone()), E::Lit(row[0].clone()));
+                    let e = if flip { E::Bin("eq", Box::new(b), Box::new(a)) } else { E::Bin("eq", Box::new(a), Box::new(b)) };
+                    out.req("key_select", format!("select SEL 0 {} T {}", e.to_line(), hex_of_str(&tb.name)));
+                }
+            }
+        }
+    }
+}
+
 fn gen_c02(out: &mut Out, rng: &mut Rng, thorough: bool) {
+    gen_foreign_key_selects(out, if thorough { 12 } else { 3 });
     use crate::decode::*;
     use crate::exec::ALL_CP;
     // the database code page is changed on a file whose summary uses the same page and holds text
